@@ -954,7 +954,12 @@ func workerMain(prefixDir, scratch string) {
 	if wd := os.Getenv("C18_WATCHDOG"); wd != "" {
 		fullWatchdog, _ = time.ParseDuration(wd)
 	}
-	os.MkdirAll(scratch, 0o755)
+	// gocoin writes files into the current directory (cblk.go dumps "<hash>.bin" of
+	// corrupt compact blocks): every worker lives in its own scratch directory
+	os.MkdirAll(scratch+"/cwd", 0o755)
+	if err := os.Chdir(scratch + "/cwd"); err != nil {
+		ev.HarnessError("worker chdir: %v", err)
+	}
 	var n *nodeEnv
 	enc := json.NewEncoder(out)
 	for {
